@@ -36,6 +36,7 @@ def run(ck, ctx):
     ck.rule("R10.7", _bounds.TEXT % "the WAL, segment and checkpoint decoders")
     ck.nd("bit-identity of payloads is delegated to CRC32 (detection probability not analysed)")
     ck.nd("behaviour for every corruption offset / torn length at run time")
+    ck.rule("R10.10", NAME_TEXT)
     for cfg in ctx.configs:
         prog = ctx.prog(cfg)
         ck.configs.append(cfg)
@@ -47,6 +48,7 @@ def run(ck, ctx):
         r106(ck, prog, cfg, "R10.6")
         _r108(ck, prog, cfg)
         r109(ck, prog, cfg, "R10.9")
+        r1010(ck, prog, cfg, "R10.10")
         _bounds.rule(ck, prog, cfg, "R10.7", ("src/streaming/wal.rs",), "a WAL file torn at that offset", floor=6, tag=_tag(cfg))
 
 
@@ -490,3 +492,61 @@ def r109(ck, prog, cfg, rid):
     ck.floor(rid + ":functions-scanned" + _tag(cfg), n, 3)
     if hits == 0:
         ck.ok(rid, "reader-decodes-image-as-read" + _tag(cfg), "%d WalReader functions scanned" % n)
+
+
+# ------------------------------------------------------------------------------------------------
+NAME_TEXT = ("every WAL file the writer can name is found again: the function that recognises WAL file names (used by recovery, truncation and "
+             "the start-up scan that picks the next sequence) rejects a name only when the writer's prefix / suffix is missing or the digits do "
+             "not parse in the writer's radix - no extra test on their number or spelling ({:08x} is a *minimum* width: sequence 2^32 has nine "
+             "digits), and prefix, suffix and radix are the writer's own")
+
+
+def r1010(ck, prog, cfg, rid):
+    cands = [f for f in prog.lib_fns() if f.file == "src/streaming/wal.rs" and f.kind == "fn" and f.locals and f.locals[0] == "std::option::Option<u64>"
+             and f.d["argc"] == 1 and f.locals[1] == "&str"]
+    users = set()
+    for g in prog.lib_fns():
+        for _, t in g.calls():
+            if any(callee(t) == c.id for c in cands):
+                users.add(g.short)
+    if not cands or not users:
+        ck.anchor_lost(rid, "no `fn(&str) -> Option<u64>` name recogniser in wal.rs that recovery uses")
+        return
+    wr = [f for f in prog.lib_fns() if f.file == "src/streaming/wal.rs" and f.kind == "fn" and f.locals and f.locals[0] == "std::string::String"
+          and f.d["argc"] == 1 and f.locals[1] == "u64"]
+    lits = ""
+    hexfmt = False
+    for w in wr:
+        for b, i, st in w.stmts():
+            if st["rv"]["k"] == "use" and "c" in st["rv"]["a"]:
+                lits += str(st["rv"]["a"].get("pv") or st["rv"]["a"]["c"])
+        hexfmt = hexfmt or any(is_callee(t, r"Argument::<'_>::new_(lower|upper)_hex") for _, t in w.calls())
+    n = 0
+    for f in cands:
+        n += 1
+        extra = []
+        for b in sorted(f.reachable_blocks()):
+            t = f.term(b)
+            if t["k"] == "switch":
+                si = switch_info(f, b)
+                src = si["src"] if si else None
+                if not (si and si["kind"] == "discr" and src is not None and src.kind == "call" and is_callee(src.term, r"Try>::branch$")):
+                    extra.append("branch at line %s" % t["ln"])
+        for b, i, st in f.stmts():
+            if st["lhs"] == {"l": 0} and st["rv"]["k"] == "agg" and "None" in str(st["rv"].get("n", "")):
+                extra.append("`None` at line %s" % st["ln"])
+        calls = [callee(t) or "" for _, t in f.calls()]
+        other = [c for c in calls if not re.search(r"strip_prefix|strip_suffix|Try>::branch$|FromResidual<.*>>::from_residual$|from_str_radix$|Result::<u64, .*>::ok$|result::Result::<.*>::ok$|Deref>::deref$", c)]
+        ck.check(not extra and not other, rid, "%s:rejects-only-foreign-names%s" % (f.short, _tag(cfg)),
+                 "%s rejects a file name for more than a missing prefix/suffix or unparsable digits (%s): a file the writer created under a longer "
+                 "(or otherwise valid) name is skipped by recovery with all its intact entries, and the start-up scan can reuse its sequence "
+                 "number and overwrite it" % (f.short, "; ".join(extra + ["calls " + c.rsplit("::", 1)[-1] for c in other])[:200]), f.where(),
+                 detail="strip_prefix? strip_suffix? from_str_radix.ok()")
+        pre = [str(t["args"][1].get("pv") or t["args"][1].get("c")).strip('"').replace("const ", "") for _, t in f.calls() if is_callee(t, r"strip_prefix|strip_suffix") and len(t["args"]) > 1]
+        radix = [str(t["args"][1].get("c", "")) for _, t in f.calls() if is_callee(t, r"from_str_radix$")]
+        n += 1
+        agree = bool(wr) and all(p_.strip('"') in lits for p_ in pre) and len(pre) == 2 and ((radix == ["16_u32"] or radix == ["const 16_u32"]) == hexfmt)
+        ck.check(agree, rid, "%s:writer-agreement%s" % (f.short, _tag(cfg)),
+                 "the name recogniser's prefix/suffix %s or radix %s are not the ones the name writer formats with" % (pre, radix), f.where(),
+                 detail="prefix %s suffix, radix %s; used by %s" % (pre, radix, sorted(users)))
+    ck.floor(rid + _tag(cfg), n, 2)
